@@ -86,6 +86,20 @@ def r1(ctx):
                    loc, {"path": path_text(bad[0][2])} if bad else None)
         if not any(k[0] == 9 and k[1] != "raise" for k in per):
             raise AnalysisError(f"state {state}: no accepted PING path")
+        # every legal ping (unfragmented, reserved bits clear, 0..125 bytes) is answered: no raising path may cover that class
+        from ..rulekit import box_hit, ivals
+        legal = {"opcode": ivals(9), "fin": ivals(1), "rsv1": ivals(0), "rsv2": ivals(0), "rsv3": ivals(0), "len": ivals((0, 125))}
+        bad = None
+        for o in outs:
+            d = frame_dims(I, o)
+            if d is None or o.kind != "raise":
+                continue
+            pt = box_hit(d, legal)
+            if pt is not None:
+                bad = bad or (pt, o)
+        ctx.ob(f"{Q}:{state}:legal-ping-is-answered", bad is None, "no rejection path covers a legal ping of 0..125 bytes" if bad is None else
+               f"a legal ping of {bad[0]['len']} bytes is rejected ({bad[1].exc_class}) instead of being answered with a pong", loc,
+               {"input": bad[0], "path": path_text(bad[1])} if bad else None)
 
 
 @rule("R-C07-2", min_instances=2, title="the pong is sent whether or not control frames are reported to the caller")
